@@ -6,11 +6,11 @@ ElemSeq == <<1, 2>>
 AuditReads == LET S == SelectSeq(ElemSeq, LAMBDA e : elems'[e].kind # "none") IN
               [i \in 1..Len(S) |-> Ev("Read", [e |-> S[i]], ReadOut(ReadValG(elems', present', fs', search', S[i])))]
 AuditFiles == FilesOut(present', fs')
-Audit == <<Ev("Reopen", [a |-> 0], [ret |-> 0])>> \o AuditReads \o <<Ev("Dump", [a |-> 0], [files |-> AuditFiles])>>
+Audit == (IF hnd' # <<>> THEN <<Ev("Detach", [a |-> 0], [ret |-> 0])>> ELSE <<>>) \o <<Ev("Reopen", [a |-> 0], [ret |-> 0])>> \o AuditReads \o <<Ev("Dump", [a |-> 0], [files |-> AuditFiles])>>
 EmitAudited == (st' = "open" /\ \E e \in Elems : elems'[e].kind # "none") =>
     CSVWrite("%1$s", <<ToJson([spec |-> "ExtElem", steps |-> hist' \o Audit])>>, IOEnv.GEN_OUT)
 EmitFull == (Len(hist') = MaxOps) => EmitAudited
 BoundGen == Len(hist) <= MaxOps
 CoverBound == wc <= 2 /\ Cardinality(present) <= 2 /\ Cardinality(tainted) <= 1
-gview == <<st, createdir, search, present, fs, elems>>
+gview == <<st, createdir, search, present, fs, elems, hnd, dirchg>>
 =============================================================================
